@@ -86,12 +86,16 @@ def digit_cursor(f, L, stores):
 
 
 class InterpR(Interp7):
-    """Interp7 that knows the emitting loops of the renderer.  tracked = {header block name: (function, loop, cursor
-    phi, begin key, end key, peel)}: the cursor position on entry is stored as ghost <begin key>, the cursor position at
-    every exit as ghost <end key> (a head-tested loop leaves through its header, where a value noted by a hook in the
-    body is not the one of the last iteration).  peel: the first iteration is executed separately (the digit loop is
-    entered with a non-zero dividend, so it emits at least one digit: a fact the inferred invariant of a head-tested loop
-    cannot express)"""
+    """Interp7 for the renderer.
+    (a) emitting loops: tracked[(function name, header block name)] = (loop, cursor phi, begin key, end key, peel); the
+        cursor position on entry is stored as ghost <begin key>, the position after the last stored character at every
+        exit as ghost <end key> (a head-tested loop leaves through its header, where a value noted by a hook in the body
+        is not the one of the last iteration).  peel: the first iteration is executed separately (the digit loop is
+        entered with a non-zero dividend, so it emits at least one digit: a fact the inferred invariant of a head-tested
+        loop cannot express);
+    (b) results of float -> integer conversions are constrained to the interval derived by c12_frange (conv_ranges);
+    (c) path states that differ only in a constant picked by opaque floating-point comparisons are joined at the phi
+        that merges the constants (plan_joins)."""
 
     def __init__(self, mod, externals=None, opaque=()):
         Interp7.__init__(self, mod, externals, opaque)
@@ -203,8 +207,20 @@ class InterpR(Interp7):
                 out.extend(Interp7.run_loop(self, fn, L, T, lf, rets))
         else:
             out = Interp7.run_loop(self, fn, L, st, frm, rets)
+        # position after the last digit: the cursor itself when the loop is left before this iteration's store (head
+        # test), the cursor's next value when it is left after the store (bottom test)
+        stores = [i for blk in L['blocks'] for i in blk.insts if i.op == 'store' and i.ops[1].k == 'inst' and
+                  i.ops[1].id == cur.id]
+        nxt = [v for (bb, v) in cur.incoming if fn.bmap[bb] in L['blocks']]
         for (s, b, to) in out:
-            c = self.val(s, iv(cur), fn)
+            after = [x for x in stores if fn.dominates_block(x.block, b)]
+            v = iv(cur)
+            if after:
+                if len(nxt) != 1 or nxt[0].k != 'inst' or not fn.dominates_block(fn.insts[nxt[0].id].block, b):
+                    raise AnalysisBroken('%s: cannot tell the cursor position after the last digit of the loop at %s'
+                                         % (fn.name, L['header'].name))
+                v = nxt[0]
+            c = self.val(s, v, fn)
             if isinstance(c, PtrVal) and c.obj == init.obj:
                 s.ghost[end] = c.off
             else:
@@ -555,12 +571,14 @@ def ftoa_check(rep, mod):
     fin = ['ghost_tok_post == 0']
     post = [
         dict(name='every path returns the buffer', then=['ret_arg == 1', 'ret_off == 0']),
-        dict(name='inf: sign then token', when=['ghost_tok_post == 1'],
-             then=['ghost_tok_buf_post == 1', 'ghost_tok_off_post == 1', 'ghost_nminus_post + ghost_nplus_post == 1',
-                   'ghost_nnul_post == 0', 'ghost_ndot_post == 0']),
-        dict(name='nan: token only', when=['ghost_tok_post == 2'],
-             then=['ghost_tok_buf_post == 1', 'ghost_tok_off_post == 0', 'ghost_nminus_post + ghost_nplus_post == 0',
-                   'ghost_nnul_post == 0']),
+        dict(name='inf: token directly after at most one sign', when=['ghost_tok_post == 1'],
+             then=['ghost_tok_buf_post == 1', 'ghost_tok_off_post == ghost_nminus_post + ghost_nplus_post',
+                   'ghost_nminus_post + ghost_nplus_post <= 1', 'ghost_nnul_post == 0', 'ghost_ndot_post == 0',
+                   'ghost_nother_post == 0']),
+        dict(name='nan: token directly after at most one sign', when=['ghost_tok_post == 2'],
+             then=['ghost_tok_buf_post == 1', 'ghost_tok_off_post == ghost_nminus_post + ghost_nplus_post',
+                   'ghost_nminus_post + ghost_nplus_post <= 1', 'ghost_nnul_post == 0', 'ghost_ndot_post == 0',
+                   'ghost_nother_post == 0']),
         dict(name='tokens are inf/nan', then=['ghost_tok_post <= 2']),
         dict(name='finite: terminated, no plus sign, at least one integer digit', when=fin,
              then=['ghost_nnul_post == 1', 'ghost_nplus_post == 0', 'ghost_nminus_post <= 1', 'ghost_nother_post == 0',
@@ -571,9 +589,12 @@ def ftoa_check(rep, mod):
              then=['ghost_ndot_post == 1', 'ghost_nul_off_post == ghost_dot_off_post + %d' % (MAXP + 1)]),
         dict(name='precision 0: no point, no fraction', when=fin + ['arg2 == 0'],
              then=['ghost_ndot_post == 0', 'ghost_nul_off_post == ghost_int_end_post']),
-        dict(name='automatic precision: 0..6 fraction digits', when=fin + ['arg2 <= -1', 'ghost_ndot_post >= 1'],
+        dict(name='automatic precision: a point is followed by 1..%d fraction digits' % MAXP,
+             when=fin + ['arg2 <= -1', 'ghost_ndot_post >= 1'],
              then=['ghost_ndot_post == 1', 'ghost_nul_off_post >= ghost_dot_off_post + 2',
-                   'ghost_nul_off_post <= ghost_dot_off_post + 7']),
+                   'ghost_nul_off_post <= ghost_dot_off_post + %d' % (MAXP + 1)]),
+        dict(name='automatic precision: without a point the text ends after the integer digits',
+             when=fin + ['arg2 <= -1', 'ghost_ndot_post == 0'], then=['ghost_nul_off_post == ghost_int_end_post']),
         dict(name='rounding uses the table entry of the number of fraction digits printed',
              when=fin + ['ghost_ndot_post == 1'],
              then=['ghost_round_off_post == 8 * ghost_nul_off_post - 8 * ghost_dot_off_post - 8']),
